@@ -1,5 +1,7 @@
 (* C17 — Once1/Once2/Once3 run the action exactly once and share its results.
-   Statements only; every proof is [exact] of a lemma of Sync/OnceProofs.v.
+   Statements only; every proof is [exact] of a lemma of Sync/OnceProofs.v
+   (abstract Once machine) or Sync/OnceImplProofs.v (transcription of
+   sync.Once and the refinement).
 
    Quantifiers: every value type V with zero value [zero], every arity (1, 2,
    3 and beyond), every number of goroutines [progs] (one list entry each),
@@ -128,14 +130,31 @@ Proof. exact no_deadlock. Qed.
 Print Assumptions C17_no_deadlock.
 
 (* Finished runs: if anybody called Do at all and every call has returned (or
-   its goroutine is gone), exactly one function was started - no response
-   needs to be exhibited. Together with C17_no_deadlock: a run can always be
-   continued until it is finished. *)
+   its goroutine is gone), exactly one function was started, and it completed
+   exactly once unless it aborted - no response needs to be exhibited. *)
 Theorem C17_finished_exactly_one : forall (V : Type) (zero : V) (arity : nat) (progs : list (list (ufun V))) (s : list tid),
   let c := run zero arity (init zero arity progs) s in
-  finished c -> (exists t f, In (EInv t f) (c_trace c)) -> length (starts (c_trace c)) = 1.
+  finished c -> (exists t f, In (EInv t f) (c_trace c)) ->
+  length (starts (c_trace c)) = 1 /\
+  exists w f, starts (c_trace c) = [(w, f)] /\ fins (c_trace c) = (if f_aborts f then [] else [(w, f_res f)]).
 Proof. exact finished_exactly_one. Qed.
 Print Assumptions C17_finished_exactly_one.
+
+(* Termination: every step of the machine decreases a measure (the steps each
+   thread still has to make), ... *)
+Theorem C17_step_decreases : forall (V : Type) (zero : V) (arity : nat) (c : config V) (t : tid) (c' : config V),
+  step zero arity c t = Some c' -> cost V arity c' < cost V arity c.
+Proof. exact step_decreases. Qed.
+Print Assumptions C17_step_decreases.
+
+(* ... so, with C17_no_deadlock, every run can be extended to a finished one:
+   "exactly one function is invoked" is not only true of runs that happen to
+   exhibit a response. (No fairness is claimed: an unfair schedule may keep
+   naming disabled or finished threads for ever.) *)
+Theorem C17_can_finish : forall (V : Type) (zero : V) (arity : nat) (progs : list (list (ufun V))) (s : list tid),
+  exists s2, finished (run zero arity (init zero arity progs) (s ++ s2)).
+Proof. exact can_finish. Qed.
+Print Assumptions C17_can_finish.
 
 (* ================================================================== *)
 (*  sync.Once itself: transcription over Mutex + atomic flag, and the   *)
@@ -215,11 +234,38 @@ Theorem C17_impl_no_deadlock : forall (V : Type) (zero : V) (arity : nat) (progs
 Proof. exact impl_no_deadlock. Qed.
 Print Assumptions C17_impl_no_deadlock.
 
+(* (For the transcription no termination measure is proved: a run of it can be
+   continued while it is unfinished; if it is finished, then ...) *)
 Theorem C17_impl_finished_exactly_one : forall (V : Type) (zero : V) (arity : nat) (progs : list (list (ufun V))) (s : list tid),
   let c := crun zero arity (cinit zero arity progs) s in
-  cfinished c -> (exists t f, In (EInv t f) (cc_trace c)) -> length (starts (cc_trace c)) = 1.
+  cfinished c -> (exists t f, In (EInv t f) (cc_trace c)) ->
+  length (starts (cc_trace c)) = 1 /\
+  exists w f, starts (cc_trace c) = [(w, f)] /\ fins (cc_trace c) = (if f_aborts f then [] else [(w, f_res f)]).
 Proof. exact impl_finished_exactly_one. Qed.
 Print Assumptions C17_impl_finished_exactly_one.
+
+(* Lock discipline of the plain field accesses in the transcription: a thread
+   about to write field i holds the mutex and done is still 0; a thread about
+   to read a field does so in a configuration in which done = 1 has been
+   stored (it got there by loading done = 1 on the fast path, or under the
+   mutex, or by storing it itself) ... *)
+Theorem C17_impl_access_discipline : forall (V : Type) (zero : V) (arity : nat) (progs : list (list (ufun V))) (s : list tid) t a,
+  let c := crun zero arity (cinit zero arity progs) s in
+  cnext_access arity c t = Some a ->
+  match a with
+  | AWrite i => cc_done c = false /\ cc_mutex c = Some t /\ i < arity
+  | ARead i => cc_done c = true /\ i < arity
+  end.
+Proof. exact impl_access_discipline. Qed.
+Print Assumptions C17_impl_access_discipline.
+
+(* ... hence never two conflicting plain accesses enabled at once. *)
+Theorem C17_impl_no_plain_race : forall (V : Type) (zero : V) (arity : nat) (progs : list (list (ufun V))) (s : list tid) t1 t2 a1 a2,
+  let c := crun zero arity (cinit zero arity progs) s in
+  t1 <> t2 -> cnext_access arity c t1 = Some a1 -> cnext_access arity c t2 = Some a2 ->
+  exists i j, a1 = ARead i /\ a2 = ARead j.
+Proof. exact impl_no_plain_race. Qed.
+Print Assumptions C17_impl_no_plain_race.
 
 (* Non-vacuity: three goroutines on a Once2; thread 1 wins the race while
    thread 0 is already inside Do, thread 2 arrives later, thread 0 calls twice.
@@ -256,14 +302,34 @@ Example C17_impl_example :
   starts (cc_trace c) = [(0, UFun 1 [7;8]%Z false)] /\ cc_done c = true /\ cc_mutex c = None /\
   map (@ct_rets Z) (cc_threads c) = [[[7;8]]; [[7;8]]; [[7;8]]]%Z /\
   map (@ct_pc Z) (cc_threads c) = [CIdle; CIdle; CIdle] /\
-  (exists t f, In (EInv t f) (cc_trace c)) /\
+  (exists t f, In (EInv t f) (cc_trace c)) /\ cfinished c /\ finished (abs c) /\
   let progs' := [[UFun 1 [7;8] true]; [UFun 0 [5;6] false]; [UFun 0 [9;9] false]]%Z in
   let c' := crun 0%Z 2 (cinit 0%Z 2 progs') ([0;0;1;1;0;0;1;0;1] ++ repeat 0 12 ++ repeat 1 8 ++ repeat 2 8) in
   In (EAbort 0) (cc_trace c') /\ cc_done c' = true /\ cc_mutex c' = None /\
   map (@ct_rets Z) (cc_threads c') = [[]; [[0;0]]; [[0;0]]]%Z /\
   map (@ct_pc Z) (cc_threads c') = [CDead; CIdle; CIdle].
 Proof.
+  assert (F3 : forall (A : Type) (P : nat -> A -> Prop) (a b c : A),
+            P 0 a -> P 1 b -> P 2 c -> forall t x, nth_error [a; b; c] t = Some x -> P t x).
+  { intros A P a b c Ha Hb Hc [|[|[|t]]] x H; simpl in H; try (injection H as <-; assumption).
+    destruct t; discriminate. }
   vm_compute. repeat split; try reflexivity.
   - exists 2, (UFun 0 [9;9]%Z false). tauto.
+  - apply F3; right; split; reflexivity.
+  - apply F3; right; split; reflexivity.
   - tauto.
 Qed.
+
+(* Non-vacuity of the access theorems and of the measure: thread 0 is about to
+   write field 0 (it holds the mutex, done = 0) while thread 1 waits for the
+   mutex; later both are about to read (done = 1). One abstract step costs 1. *)
+Example C17_impl_access_example :
+  let progs := [[UFun 0 [7;8] false]; [UFun 0 [5;6] false]]%Z in
+  let c := crun 0%Z 2 (cinit 0%Z 2 progs) [0;0;1;1;0;0;0] in
+  cnext_access 2 c 0 = Some (AWrite 0) /\ cnext_access 2 c 1 = None /\
+  cc_done c = false /\ cc_mutex c = Some 0 /\
+  let c2 := crun 0%Z 2 c [0;0;0;0;0;1;1;1] in
+  cnext_access 2 c2 0 = Some (ARead 0) /\ cnext_access 2 c2 1 = Some (ARead 0) /\ cc_done c2 = true /\
+  let a := init 0%Z 2 progs in
+  exists a', step 0%Z 2 a 0 = Some a' /\ cost Z 2 a = 20 /\ cost Z 2 a' = 19.
+Proof. vm_compute. repeat split; try reflexivity. eexists. repeat split; reflexivity. Qed.
